@@ -127,6 +127,13 @@ func ruleDistributor(w *World, r *Run) {
 				if !(us.Kind == "call" && us.Name == "(*net/url.URL).String" && us.Args[1] == res(up[0], 0)) {
 					good = false
 				}
+				// … as it was parsed: a component rewritten afterwards (Path cleaned, joined, unescaped) is re-escaped by
+				// String() from its decoded form, and an escaped '/' in the witness's key name becomes a path separator
+				for _, ev := range eventsOfKind(s, "store") {
+					if ev.Seq < rq.Seq && ev.Recv != nil && mentions(ev.Recv, res(up[0], 0)) {
+						good = false
+					}
+				}
 			}
 			r.Check(good, "C15.c", fnDistForLog+" | target = baseURL + /distributor/v0/logs/<log ID>/byWitness/<escaped witness key name>/checkpoint", w.pos(rq.Pos), "request URL is not built from d.baseURL, the path template, l.ID and url.PathEscape(d.witSigV.Name())")
 		}
